@@ -69,6 +69,170 @@ claim(
     'DESIGN.md section 5, C15',
 )
 
+claim(
+    'C03', 'other', 'class-table resolution of `transpose` (MRO + interpreted decorator rewiring); adjoint schemas on canonical terms; exact symbolic transpose identity',
+    'For each of the 31 operator classes `transpose` is resolved as Python would resolve it: generic lazy transpose (adjoint by jax.linear_transpose, '
+    'transposable because C04 shows the mv linear), self (class must be tagged symmetric), or hand-written. Each hand-written transpose is matched '
+    'against the adjoint construction of its class: structures swapped, same data, composition reversed unconditionally, row <-> column of transposed '
+    'blocks, swapped source/destination, rewritten subscripts on the output structure; A.T.T returns A; the lazy dual swaps structures; the '
+    'hand-written transposed rotation equals the matrix transpose for all angles and kinds, the reshape dual reshapes to the operand input shapes, '
+    'the observation-matrix dual applies the transposed matrix field. NOT decided: adjointness of the rewritten einsum subscripts (C14), symmetry of the Toeplitz kernels.',
+    'Trusted: jax.linear_transpose is the exact adjoint of a function built from linear primitives.',
+    'DESIGN.md section 5, C03',
+)
+
+claim(
+    'C05', 'other', 'override inventory justified by derived kinds/guards; value-flow dtype rule over abstractly interpreted mv/as_matrix; definite-assignment + escape analysis of constructors',
+    'out_structure defaults to the abstract evaluation of mv (honest by construction); every class overriding it is justified: the 8 square classes by a '
+    'derived structure-preserving mv or constructor guard, the written accessors of composites by agreement with the order in which mv applies the '
+    'parts. Every array creation on a result path carries a data-derived dtype (never none, never a Python builtin type), so the result dtype does not '
+    'depend on the 64-bit flag. No constructor hands self to JAX, or calls a method reading a field, before that field is assigned, and every '
+    'declared field is assigned on all non-raising paths. Sizes/promoted dtypes are computed from the structures. NOT decided: canonicalisation of '
+    'user-supplied float64 structures when 64-bit mode is off, leaf shapes of computed (non-declared) structures.',
+    'Trusted: jax.eval_shape; equinox flattens a bound method as all fields of self.',
+    'DESIGN.md section 5, C05',
+)
+
+claim(
+    'C06', 'other', 'class-table resolution of `inverse`; closed-form schemas on canonical terms; exact symbolic orthogonality; guard facts',
+    'Closed-form inverses are a table with derived reasons: scalar -> reciprocal on the same structure; orthogonal classes resolve `inverse` to the '
+    'function their own `transpose` resolves to (decorator order matters) and the rotation satisfies M^T M = I for all angles; move-axis is a Perm whose '
+    'transpose swaps source/destination; block-diagonal inverts block-wise under the all-square guard; the diagonal inverse re-uses values, axes and '
+    'structure with where(d != 0, 1/d, 0); lazy inverses return their operand on .inverse(); non-square operands are refused before anything is '
+    'stored; the solver gets the operand as matrix and the input as right-hand side. NOT decided: solver convergence/tolerance, rounding.',
+    'Trusted: lineax.linear_solve solves to tolerance for a positive (semi)definite operand (the property\'s stated precondition).',
+    'DESIGN.md section 5, C06',
+)
+
+claim(
+    'C07', 'other', 'pattern x rule-guard acceptance over the class table; symbolic cursor arithmetic over all paths of one scan iteration; may-return-class inference',
+    'Each of the 23 documented patterns is accepted by the class guards of a registered rule and has a rewriting path (identity guards checked for '
+    'type-compatibility); on every path of one scan iteration the cursor becomes <= max(cursor-1, 0) after a rewrite and cursor+1 otherwise, a rewrite '
+    'leaves the rule loop, the scan only ends at the end of the chain - exactly the transfer conditions of the invariant "no reducible pair left of '
+    'the cursor"; the chain is returned unchanged only when it holds at most one scalar, which is placed on the smaller side; every class normalised '
+    'before the scan that a rule may produce is re-normalised on the rewrite path. NOT decided: that each rule fires for every parameterisation of '
+    'its pattern (aliasing axes) - value-level.',
+    'Trusted: the class guards are the only applicability conditions besides the value-level ones treated as satisfiable.',
+    'DESIGN.md section 5, C07',
+)
+
+claim(
+    'C08', 'other', 'who-may-tag scan; re-derivation of every true tag from the mv denotation (kinds, exact Mueller matrices, constructor guards); rewiring consistency over the class table',
+    'Tags are asserted only inside the decorator functions of core.py with constant answers (plus the documented solver precondition); every '
+    '(class, tag) pair that evaluates to True along the MRO is re-derived: diagonal/symmetric from Id/Scale kinds, the strict shape guard, or an '
+    'exactly derived diagonal matrix; orthogonal from M^T M = I; square from a structure-preserving mv or a constructor guard; a semidefinite tag on a '
+    'class whose matrix is linear in an unconstrained parameter array is refuted. Decorator rewiring is consistent with what each class finally '
+    'resolves (transpose / inverse / out_structure). ASSUMED, not derived: symmetry of the banded Toeplitz matrix.',
+    'Trusted: functools.singledispatch picks the first registration along the MRO; __init_subclass__ default registrations as read from source.',
+    'DESIGN.md section 5, C08',
+)
+
+claim(
+    'C09', 'other', 'dispatch-table exhaustiveness; guard extraction; abstract interpretation of each kernel (linearity + trace taint); dtype/size-site rules',
+    'STRUCTURAL NECESSARY CONDITIONS ONLY: METHODS <-> dispatch branches <-> existing kernels; illegal method / fft_size refused before any store; each '
+    'live kernel linear in x with the band values constant and trace-safe; vectorize signature (n),(k)->(n) with (x, band_values); band count from the '
+    'last axis of the band values; every buffer with a data-derived dtype; [h:-h] slices guarded against h == 0; irfft given its length; as_matrix and '
+    'the dense method share one builder. The equality of the four kernels, overlap block arithmetic and K > n are numeric and NOT decided.',
+    'Trusted: the linear-primitive whitelist; numpy.vectorize semantics.',
+    'DESIGN.md section 5, C09',
+)
+
+claim(
+    'C10', 'other', 'kind inference of the block mv (incl. arity one); accessor/transposition/dense schemas; constructor-guard extraction; block-rule table',
+    'Row sums block(leaf) over all pairs, diagonal applies leaf-wise, column applies every block to the same input - linear for every container arity; '
+    'structures, transposes (row <-> column of transposed blocks), block-wise inverse under the all-square guard, hstack / block_diag / vstack over '
+    'block_leaves; constructors refuse blocks whose shared structure (pytree, shapes, dtypes) differs from the first block\'s; product rules follow '
+    'the block-matrix layout, multiply left blocks on the left and require identically nested containers. NOT decided: numeric equality with the stacked matrix.',
+    'Trusted: jax.tree.map/leaves traverse containers in one fixed leaf order.',
+    'DESIGN.md section 5, C10',
+)
+
+claim(
+    'C11', 'other', 'guard extraction, definite-assignment/escape analysis, kind inference and read-set analysis of the diagonal operators',
+    'STRUCTURAL NECESSARY CONDITIONS ONLY: pytree / 0-d values refused; the constructor ends with an abstract evaluation of mv once all fields are set '
+    '(duplicated or incompatible axes surface at construction); the strict variant raises on any shape change and mv reaches that check; mv is an '
+    'element-wise product of reshaped values and reshaped leaf (RScale) reading only the values and axes; inverse re-uses values/axes/structure. The '
+    'axis normalisation/padding/moveaxis arithmetic itself (that values land on the requested axes) is value-level and NOT decided.',
+    'Trusted: jnp.broadcast_shapes / reshape / moveaxis.',
+    'DESIGN.md section 5, C11',
+)
+
+claim(
+    'C12', 'other', 'kind inference (Select); definite-assignment/escape analysis of the constructor; guard facts for the uniqueness flag; rule soundness reused from C01',
+    'Both mv are pure selections (each output element is one input element), so the generic transpose is the scatter-add adjoint; the index operator '
+    'is constructible with and without output structure, refuses masks without output structure and several ellipses; unique_indices is forced true '
+    'only for int/slice/ellipsis/boolean-array indices; P P^T deleted only under identity + uniqueness, pack pack^T under identity, P^T P -> '
+    'multiplicity diagonal on the single indexed axis with negative aliases merged; no-op index -> identity only without indexed axes; Stokes '
+    'containers are indexed component-wise. NOT decided: the indexed-axes arithmetic and the multiplicity values.',
+    'Trusted: JAX native indexing and its linear transpose.',
+    'DESIGN.md section 5, C12',
+)
+
+claim(
+    'C13', 'other', 'kind inference (Perm) plus term derivation of the primitive calls; guard extraction; schemas reused from C03/C06/C01',
+    'Each axis mv is built from moveaxis / reshape of the leaf alone (permutation matrix: transpose = inverse), with the stored arguments in the right '
+    'order and negative ravel axes normalised per leaf; illegal arguments (first after last - same sign and per leaf for mixed signs; wrong size; '
+    'sizes < -1; second -1) are refused before any store; transposes swap source/destination or reshape back to the operand input shapes; a '
+    'ravel/reshape becomes the identity only when its output structure equals its input structure; inverse pairs are deleted only under crosswise '
+    'equality / operand identity. NOT decided: agreement with numpy for every sign/rank combination.',
+    'Trusted: jnp.moveaxis / reshape semantics.',
+    'DESIGN.md section 5, C13',
+)
+
+claim(
+    'C14', 'other', 'role-order term rule over every einsum call; guard extraction over the subscript parser/rewriter',
+    'STRUCTURAL NECESSARY CONDITIONS ONLY: the three branches of mv call einsum(subscripts, blocks, leaf) in that role order; transpose keeps the '
+    'blocks, uses the output structure and the rewritten subscripts; all six rejections (incl. the ordered layout comparison) dominate the return. '
+    'That the letter swap yields the adjoint for every accepted subscript string is a property of a string algorithm over an unbounded input family '
+    'and is NOT decided (enumeration would be a dynamic technique).',
+    'Trusted: jnp.einsum.',
+    'DESIGN.md section 5, C14',
+)
+
+claim(
+    'C16', 'other', 'canonical-term evaluation of the builders; exact symbolic Mueller product and Euler literal; structure-term equality across every @',
+    'Projection = R(pa) . Index(world2index(vec2dir(rot . dirs))) . Ravel and acquisition = reduce(P . H . projection); index/ravel are component-wise, '
+    'so P H R(psi) = (1, cos 2psi, -sin 2psi, 0)/2 restricted to the kind is proved for all angles; the 3x3 literal equals Rz(phi) Ry(theta) Rz(pa) and '
+    'the einsum contracts its column with the coordinate axis; theta = arccos(z/r), phi = atan2(y, x), unit directions; the sampling operator is '
+    'constructible and R^T R is deleted before angle merging; every @ of the builders joins provably equal (kind, shape, dtype) structure terms on '
+    'every path. NOT decided: pixel lookup, hit-count values, the random sampling generator.',
+    'Trusted: jax_healpy, einsum/arccos/arctan2, the polynomial normaliser.',
+    'DESIGN.md section 5, C16',
+)
+
+claim(
+    'C17', 'other', 'def-use / term derivation over pixel2index, the HEALPix lookup call and the coverage accumulation',
+    'STRUCTURAL NECESSARY CONDITIONS ONLY: result = where(valid, index, -1); valid conjoins 0 <= i and i < dim for the first axis and every further one, '
+    'with the dim that scales the stride; index accumulated with the current stride before the stride is multiplied; aligned zip; rounding before '
+    'the cast; int32/int64 choice from the map size; ang2pix(nside, theta, phi) in ring ordering; world2index = pixel2index(*world2pixel); coverage = '
+    'add-accumulated counts over len(self) zeros reshaped to the map. Rounding at half-integers, the bijection, agreement with healpy and histogram '
+    'totals are numeric and NOT decided.',
+    'Trusted: jax_healpy.ang2pix, jnp.unique / scatter-add.',
+    'DESIGN.md section 5, C17',
+)
+
+claim(
+    'C18', 'other', 'writer/reader table agreement for hand-registered pytrees; field discipline; trace-taint abstract interpretation of every mv',
+    'For each hand-registered landscape the aux_data keys are accepted by and cover the required parameters of that class\'s own constructor, are fed '
+    'from the like-named attributes, every landscape subclass is registered and no static aux value is an array (one known finding: '
+    'FrequencyLandscape.frequencies); constructors assign only and all declared fields, no array/operator field is static; in every mv, kernel and '
+    'helper Python control flow, loop bounds, int()/range() and numpy calls only see static values. NOT decided: value equality jit vs eager inside '
+    'XLA, 64-bit canonicalisation.',
+    'Trusted: tracing with static-only Python control flow reproduces the eager array program; equinox field semantics.',
+    'DESIGN.md section 5, C18',
+)
+
+claim(
+    'C20', 'other', 'dunder/helper table agreement on canonical terms; kind-table agreement (dict / Literal / ClassVar / fields); argument-selection at factory call sites',
+    'Forward dunders call _operation and reflected ones _roperation with the like-named operator function; the helpers apply (leaf, other) / (other, '
+    'leaf) in both branches and return NotImplemented otherwise; unary ops, ravel, reshape map over all components; fields = lower-cased letters of '
+    '`stokes`; class_for dict = Literal = subclasses; from_iquv passes exactly its own components in order; every factory passes like-named arguments '
+    'in the callee\'s parameter order (normal takes key first, uniform shape first); zeros/ones/full/dot/as_promoted_dtype/*_like helpers have their '
+    'leaf-wise form. NOT decided: numeric results, dtype promotion outcomes.',
+    'Trusted: jax.tree.map applies a function leaf-wise in a fixed order.',
+    'DESIGN.md section 5, C20',
+)
+
 _WIP = 'check under construction in this session; not claimed until its rules run clean on the tree'
 
 
